@@ -98,6 +98,9 @@ KINDS3 = ['trace', 'traceType', 'clockType', 'dst', 'ert']
 KINDS2 = ['meta2', 'traceType2', 'clockType2', 'dst2', 'ert2']
 
 
+DOTTED = [0.25]      # probability that an inclusion path is spelled in a form that is not normal
+
+
 def gen_includable(rnd, kind, files, depth, allow_include=True):
     """a node of the given kind: random properties, children of the right kinds, maybe `$include`"""
     node = {}
@@ -113,19 +116,22 @@ def gen_includable(rnd, kind, files, depth, allow_include=True):
     if allow_include and files and rnd.random() < (0.7 if depth == 0 else 0.3):
         n = rnd.randint(1, 3)
         paths = [rnd.choice(files) for _ in range(n)]
+        # the same file may be named in a form that is not normal (`./f1.yaml`)
+        paths = [('./' + p if rnd.random() < 0.5 else './/' + p) if rnd.random() < DOTTED[0] else p for p in paths]
         node['$include'] = paths[0] if n == 1 and rnd.random() < 0.5 else paths
     items = list(node.items())
     rnd.shuffle(items)
     return dict(items)
 
 
-def gen_include_world(rnd, kind):
+def gen_include_world(rnd, kind, p_acyclic=0.8):
     """(node, dirs, ignore): files of the same kind including each other (possibly cyclically, possibly
     missing), spread over 1–3 directories with shadowing"""
     nfiles = rnd.randint(1, 5)
+    DOTTED[0] = rnd.choice([0.0, 0.25, 0.25, 1.0])       # per world: never, sometimes, always
     names = [f'f{i}.yaml' for i in range(nfiles)]
     refs = names + (['missing.yaml'] if rnd.random() < 0.15 else [])
-    acyclic = rnd.random() < 0.8
+    acyclic = rnd.random() < p_acyclic
     ndirs = rnd.randint(1, 3)
     dirs = [dict() for _ in range(ndirs)]
     for i, n in enumerate(names):
@@ -138,6 +144,7 @@ def gen_include_world(rnd, kind):
         if not placed:
             rnd.choice(dirs)[n] = gen_includable(rnd, kind, allowed, 1)
     node = gen_includable(rnd, kind, refs, 0)
+    DOTTED[0] = 0.25
     return node, dirs, rnd.random() < 0.3
 
 
